@@ -403,15 +403,13 @@ def check_hash_order(ctx):
 
 def handle_index(ctx, f, n, where):
     """list(s)[i] is order-free only under a dominating `len(s) == 1` test."""
+    from ..cfg import dominating_conditions
     sname = norm(n.value.args[0])
     guarded = False
-    p = getattr(n, '_parent', None)
-    while p is not None:
-        if isinstance(p, ast.If):
-            tst = norm(p.test)
-            if f'len({sname}) == 1' in tst and any(n is x for b in p.body for x in ast.walk(b)):
-                guarded = True
-        p = getattr(p, '_parent', None)
+    for t, pol in dominating_conditions(n):
+        txt = norm(t)
+        if (pol and txt in (f'len({sname}) == 1', f'1 == len({sname})')) or (not pol and txt in (f'len({sname}) != 1', f'1 != len({sname})')):
+            guarded = True
     ctx.ob('C20.hash-order', f'{f.split("/")[-1]}:{where}:{norm(n)}', guarded,
            f'{where}: `{norm(n)}` picks an element of a set by position without a dominating `len({sname}) == 1` test: which '
            f'element it gets depends on PYTHONHASHSEED', file=f, line=n.lineno)
